@@ -6,11 +6,15 @@ PROP = {
              "leading-zero / >= 2^31 / 0xffffffxx ids, types declared before use, single-constructor types named like their "
              "constructor, fields int long int256 bytes string Bool #, (vector T) of builtins and declared types, bare "
              "references to single-constructor types, boxed references to 2..5-constructor types, mode.N?T with N biased to "
-             "0/31 and uniform over 0..31 and T any field type or `true`, constructors without fields, functions with "
+             "0/31 and uniform over 0..31 and T any field type or `true`, constructors without fields, the constructors of a type NOT "
+             "adjacent (other declarations and users of the type between them), values taking every constructor in turn, functions with "
              "conditional arguments returning single- and multi-constructor types, liteServer.error at a random position) plus "
              "one fixed schema with a conditional field on every bit 0..31; TL-B schemas of 1..8 declared types (uintN intN "
              "(## n) for 1..64 biased to 1/7/8/9/.../63/64, uint128/256/257 int128/256/257, the 8 generated bitsN, Bool, "
-             "VarUInteger 1..32, Coins/Grams, MsgAddress, tail Cell, ^Cell, Maybe T, Maybe ^T, Either T ^T, Either T U, ^T, "
+             "VarUInteger 1..32, Coins/Grams, MsgAddress, tail Cell, ^Cell, Maybe T, Maybe ^T, Either T ^T, Either T U, Either T T and "
+             "Either T T' / T ^T' with two spellings of one Go type, nested and under Maybe / HashmapE, constructor lines of "
+             "different types interleaved, value batches drawn until the schema says every Maybe/Either/constructor alternative "
+             "(to depth 3) was selected, ^T, "
              "^[ fields ], HashmapE n T / n ^T incl. BitsN keys, nested declared types, untagged / #hex / $bin single "
              "constructors, 2..5-constructor unions with fixed-width, prefix-code, 8-bit and 32-bit tags, abi-style message "
              "bodies generated alone with typePrefix+skipMagic, every value fitting a cell; every form of field definition of "
